@@ -227,9 +227,16 @@ def run_starttls(ctx, mods):
         utils.net.ssl_wrap_socket = saved[3]
 
 
+# (ssl, some certificate validation configured, verification forced by a stored policy)
+TRANSPORTS = [(False, False, False), (True, True, False), (True, False, False), (False, True, False), (False, False, True), (True, False, True)]
+
+
 def sequences(ctx):
     rng = ctx.rng
     out = [(c['cfg'], c['secure'], c['seq'], 'corpus') for c in CORPUS]
+    for tr in TRANSPORTS:
+        for body in STS_BODIES[:3]:
+            out.append((1, tr, [[0, ['*', 'LS', body]]], 'transport'))
     alpha = c08.ALPHABET + [[0, ['*', 'LS', b]] for b in STS_BODIES] + [[0, ['*', 'NEW', STS_BODIES[1]]]]
     req_cfgs = [i for i, c in enumerate(c08.CONFIGS) if c['required']]
     for n in (1, 2):
@@ -237,13 +244,13 @@ def sequences(ctx):
             if n == 2 and (t[0] + 3 * t[1]) % 3 and ctx.scale == 1:
                 continue
             ci = req_cfgs[(t[0] + t[-1]) % len(req_cfgs)] if (t[0] % 2) else (t[0] + t[-1]) % len(c08.CONFIGS)
-            out.append((ci, (t[0] + t[-1]) % 2 == 0, [alpha[i] for i in t], 'exhaustive-len%d' % n))
+            out.append((ci, TRANSPORTS[(t[0] + t[-1]) % len(TRANSPORTS)], [alpha[i] for i in t], 'exhaustive-len%d' % n))
     for _ in range(ctx.n(1500)):
         seq = c08.gen_seq(rng)
         if rng.random() < 0.4:
             seq.insert(rng.randrange(len(seq) + 1), [0, ['*', rng.choice(['LS', 'NEW']), rng.choice(STS_BODIES)]])
         ci = rng.choice(req_cfgs) if rng.random() < 0.6 else rng.randrange(len(c08.CONFIGS))
-        out.append((ci, rng.random() < 0.5, seq, 'random'))
+        out.append((ci, rng.choice(TRANSPORTS), seq, 'random'))
     return out
 
 
